@@ -37,7 +37,9 @@ Pool == <<
   CallE(V("g"), <<>>),
   Set("z", Bin("/", I(10), Bin("-", V("x"), I(1)))),
   Set("a", ArrE(<<V("x"), I(2)>>)),
-  Destruct(<<"p", "q">>, TupE(<<V("x"), Deref(V("c"))>>))
+  Destruct(<<"p", "q">>, TupE(<<V("x"), Deref(V("c"))>>)),
+  \* a destructuring that re-binds a name another element of its own initialiser still reads
+  Destruct(<<"x", "w">>, TupE(<<I(5), V("x")>>))
 >>
 \* a statement can only be fed when the names it uses are bound: sessions are generated freely and the
 \* specification classifies ill-formed ones as "stuck" (unbound name) — those are expected to be rejected.
